@@ -83,6 +83,46 @@ def check_ties(c, rec):
         rec.tag("has_ties")
 
 
+# ---- near ties: values that differ by a few units in the last places are NOT ties ----------------------------------
+@st.composite
+def near_tie_cases(draw):
+    shp = draw(gen.shapes(1, 3, 24))
+    nd = len(shp)
+    n = int(np.prod(shp))
+    return {"shape": shp, "base": draw(st.sampled_from([1.0, -1.0, 3.5, 1024.0, 0.015625])),
+            "perm": draw(st.permutations(list(range(n)))), "gap": draw(st.sampled_from([1, 2, 16, 4096, 2 ** 20])),
+            "dim": draw(st.one_of(st.none(), st.integers(-nd, nd - 1))), "keepdims": draw(st.booleans()),
+            "which": draw(st.sampled_from(["max", "min"])), "g": draw(gen.upstream()), "dtype": draw(gen.DTYPES)}
+
+
+def check_near_ties(c, rec):
+    dt = np.dtype(c["dtype"])
+    n = len(c["perm"])
+    ulp = float(np.spacing(np.asarray(abs(c["base"]), dtype=dt)))
+    x = (np.asarray(c["base"], dtype=np.float64) + np.array(c["perm"], dtype=np.float64) * c["gap"] * ulp).astype(dt).reshape(c["shape"])
+    if np.unique(x).size != x.size:
+        rec.skip = "values_collapsed"
+        return
+    rec.nontrivial(n >= 2)
+    t = Tensor(x.copy(), requires_grad=True)
+    out = getattr(t, c["which"])(c["dim"], c["keepdims"])
+    g = gen.cyc(c["g"], out.shape, dt)
+    out.backward(Tensor(g.copy()))
+    grad = np.asarray(t.grad.data, dtype=np.float64)
+    x64 = x.astype(np.float64)
+    want = np.zeros(x.shape)
+    if c["dim"] is None:
+        idx = np.unravel_index(int(x64.argmax() if c["which"] == "max" else x64.argmin()), x.shape)
+        want[idx] = float(np.asarray(g).reshape(-1)[0])
+    else:
+        d = c["dim"] % x.ndim
+        am = np.expand_dims(x64.argmax(axis=d) if c["which"] == "max" else x64.argmin(axis=d), d)
+        np.put_along_axis(want, am, np.asarray(g, dtype=np.float64).reshape(am.shape), axis=d)
+    if grad.shape != want.shape or not np.array_equal(grad, want):
+        raise Violation("near_tie", f"{c['which']} over values {c['gap']} ulp apart (no tie): gradient {grad.ravel().tolist()} is not g at "
+                                    f"the unique extremum {want.ravel().tolist()}; x={x64.ravel().tolist()} dim={c['dim']} dtype={c['dtype']}")
+
+
 # ---- enumerated grid of dim arguments (shared with C05), differentiated ------------------------------
 def enum_dims_grad(tier, shard, nshards):
     from .c05 import enum_dims
@@ -102,5 +142,6 @@ def subchecks():
         subs.append(SubCheck(op.name, gradcheck.make_check(op), (lambda op=op: ops.full_case(op)),
                              quick=400, thorough=3000, shards_quick=2, shards_thorough=4))
     subs.append(SubCheck("maxmin_ties", check_ties, tie_cases, quick=300, thorough=4000))
+    subs.append(SubCheck("maxmin_near_ties", check_near_ties, near_tie_cases, quick=300, thorough=4000))
     subs.append(SubCheck("dim_grid", check_dim_grid, None, enum=enum_dims_grad, exhaustive=True, shards_quick=8, shards_thorough=16))
     return subs
